@@ -33,7 +33,7 @@ func (o *Obligation) SMTLite() (string, bool) {
 	b.WriteString(prelude)
 	dropped := false
 	var keep []bool
-	if !noPrune {
+	if !noPrune && !o.NoPrune {
 		keep = o.relevantLines()
 	}
 	for i, l := range o.ctx.lines[:o.Prefix] {
@@ -199,7 +199,7 @@ func (o *Obligation) SMT() string {
 	b.WriteString("(set-logic ALL)\n")
 	b.WriteString(prelude)
 	var keep []bool
-	if !noPrune && o.Expect != "canary" {
+	if !noPrune && !o.NoPrune && o.Expect != "canary" {
 		keep = o.relevantLines()
 	}
 	for i, l := range o.ctx.lines[:o.Prefix] {
